@@ -28,9 +28,20 @@ type HashPair struct {
 // ByName implements sort.Interface for []HashPair based on the Key field.
 type ByName []HashPair
 
-func (a ByName) Len() int           { return len(a) }
-func (a ByName) Swap(i, j int)      { a[i], a[j] = a[j], a[i] }
-func (a ByName) Less(i, j int) bool { return a[i].Key.Inspect() < a[j].Key.Inspect() }
+func (a ByName) Len() int      { return len(a) }
+func (a ByName) Swap(i, j int) { a[i], a[j] = a[j], a[i] }
+func (a ByName) Less(i, j int) bool {
+	l := a[i].Key.Inspect()
+	r := a[j].Key.Inspect()
+	if l != r {
+		return l < r
+	}
+
+	// Keys of different types may print identically (1 and "1"),
+	// so the type breaks the tie: the order of the entries must
+	// not depend upon the iteration-order of our map.
+	return a[i].Key.Type() < a[j].Key.Type()
+}
 
 // Hash wrap map[HashKey]HashPair and implements Object interface.
 type Hash struct {
